@@ -69,9 +69,12 @@ impl Prop for Framing {
                     let k = 1 + w.tape.draw(12);
                     w.cancel = CancelPlan::EveryKth(k);
                 }
-                let d = format!("systematic corpus[{idx}] style={style} cuts={cuts:?} cancel={:?}", w.cancel);
+                // 0 = Connection's own receive methods; 1 = split + join before every receive;
+                // 2 = reply kinds through a two-call chain's reply stream
+                let api_mode = w.tape.draw(3);
+                let d = format!("systematic corpus[{idx}] style={style} cuts={cuts:?} cancel={:?} api_mode={api_mode}", w.cancel);
                 let p_cuts = cuts;
-                (script, (d, p_cuts))
+                (script, (d, p_cuts, api_mode))
             } else {
                 w.cfg = Cfg::swarm(&mut w.tape);
                 // listener / stream buggify sites do not exist in this world
@@ -84,10 +87,14 @@ impl Prop for Framing {
                         _ => CancelPlan::EveryKth(2 + w.tape.draw(5)),
                     };
                 }
-                let d = format!("seeded cfg={:?} cancel={:?}", w.cfg, w.cancel);
-                (script, (d, Vec::new()))
+                // half of the runs use one entry point throughout, the others pick one per receive:
+                // Connection's methods, the read half, split + join in between, a chain's stream
+                let api_mode = if w.tape.draw(2) == 0 { 0 } else { 3 };
+                let d = format!("seeded cfg={:?} cancel={:?} api_mode={api_mode}", w.cfg, w.cancel);
+                (script, (d, Vec::new(), api_mode))
             }
         };
+        let api_mode = mode_desc.2;
         let stream = script.stream();
         let n = script.frames.len();
         let expected = script.expected();
@@ -102,19 +109,72 @@ impl Prop for Framing {
 
         // ---- the code under test: real Connection over the stub socket
         let results: Rc<RefCell<Vec<Res>>> = Rc::new(RefCell::new(Vec::new()));
+        // the target type actually used for each result (a chain receives several frames as one type)
+        let used: Rc<RefCell<Vec<usize>>> = Rc::new(RefCell::new(Vec::new()));
         let cancel = self.cancel;
         {
             let mut conn = Connection::new(W::socket(world, rd, wr));
             let mut ex = Exec::new();
             let results2 = results.clone();
+            let used2 = used.clone();
             let kinds = script.kinds.clone();
             let world2 = world.clone();
             ex.spawn(async move {
                 // n frames, then one more receive that must report end-of-stream
-                let mut i = 0;
-                while i <= n {
+                loop {
+                    let i = results2.borrow().len();
+                    if i > n {
+                        break;
+                    }
                     let kind = if i < n { kinds[i] } else { 0 };
-                    let r = if cancel {
+                    // which public entry point performs this receive
+                    let api = match api_mode {
+                        0 => 0,
+                        1 => 5,
+                        2 => 6,
+                        _ => world2.borrow_mut().tape.draw(8),
+                    };
+                    if api >= 6 && (kind >= 3 || i == n) {
+                        // through a chain's reply stream (reply target types only)
+                        let k = if i == n { 3 + i % 3 } else { kind };
+                        let (calls, max_items) = if api_mode == 2 {
+                            (2, (n + 1 - i).min(2))
+                        } else {
+                            let mut w = world2.borrow_mut();
+                            (1 + w.tape.draw(4), 1 + w.tape.draw((n + 1 - i).min(4)))
+                        };
+                        let mut out = Vec::new();
+                        let abandoned = frames::recv_via_chain(&world2, &mut conn, k, calls, max_items, cancel, &mut out).await;
+                        let mut w = world2.borrow_mut();
+                        w.stat("api.receive_through_chain_reply_stream");
+                        if abandoned {
+                            w.stat("api.chain_reply_stream_abandoned");
+                        }
+                        for r in out {
+                            let idx = results2.borrow().len();
+                            w.ev("recv.result", idx as u64, matches!(r, Res::Ok(_)) as u64);
+                            used2.borrow_mut().push(k);
+                            results2.borrow_mut().push(r);
+                        }
+                        continue;
+                    }
+                    if api == 5 {
+                        // take the connection apart and put it together again
+                        let (r, w) = conn.split();
+                        conn = Connection::join(r, w);
+                        world2.borrow_mut().stat("api.split_and_join_between_receives");
+                    }
+                    let r = if api == 4 {
+                        world2.borrow_mut().stat("api.receive_on_read_half");
+                        if cancel {
+                            match crate::world::cancellable(&world2, frames::recv_kind_read(conn.read_mut(), kind)).await {
+                                Some(r) => r,
+                                None => continue,
+                            }
+                        } else {
+                            frames::recv_kind_read(conn.read_mut(), kind).await
+                        }
+                    } else if cancel {
                         match crate::world::cancellable(&world2, frames::recv_kind(&mut conn, kind)).await {
                             Some(r) => r,
                             None => continue, // abandoned: start a new receive for the same slot
@@ -123,8 +183,8 @@ impl Prop for Framing {
                         frames::recv_kind(&mut conn, kind).await
                     };
                     world2.borrow_mut().ev("recv.result", i as u64, matches!(r, Res::Ok(_)) as u64);
+                    used2.borrow_mut().push(kind);
                     results2.borrow_mut().push(r);
-                    i += 1;
                 }
             });
             ex.run(world);
@@ -132,6 +192,11 @@ impl Prop for Framing {
 
         // ---- oracle
         let got = results.borrow();
+        let used = used.borrow();
+        let expected: Vec<Res> = (0..n).map(|i| match used.get(i) {
+            Some(k) if *k != script.kinds[i] => frames::ref_kind(&script.frames[i], *k),
+            _ => expected[i].clone(),
+        }).collect();
         let sample = if want_sample || world.borrow().want_sample {
             let v = json!({"mode": mode_desc.0, "frames": script.describe(), "stream_bytes": stream.len()});
             world.borrow_mut().scenario = Some(v.clone());
@@ -150,7 +215,7 @@ impl Prop for Framing {
                 Some(r) if *r != expected[i] => {
                     return Err((
                         format!("{id}/result-mismatch"),
-                        format!("frame {i} ({:?}{} as {}): expected {}, got {}", String::from_utf8_lossy(&script.frames[i][..script.frames[i].len().min(200)]), if script.frames[i].len() > 200 { format!("… {} bytes", script.frames[i].len()) } else { String::new() }, frames::KIND_NAMES[script.kinds[i]], short_res(&expected[i]), short_res(r)),
+                        format!("frame {i} ({:?}{} as {}): expected {}, got {}", String::from_utf8_lossy(&script.frames[i][..script.frames[i].len().min(200)]), if script.frames[i].len() > 200 { format!("… {} bytes", script.frames[i].len()) } else { String::new() }, frames::KIND_NAMES[used.get(i).copied().unwrap_or(script.kinds[i])], short_res(&expected[i]), short_res(r)),
                     ))
                 }
                 _ => {}
@@ -195,6 +260,20 @@ impl Prop for Framing {
                 // every single cut
                 for c in 0..(len - 1) as u32 {
                     tapes.push(tail(vec![SYS_MODE, idx, 1, c]));
+                }
+                // ... and again with the connection split and re-joined before every receive, and
+                // with reply frames received through a chain's reply stream
+                if *k == ks[0] || *k == 1 {
+                    for api in 1..3u32 {
+                        for c in 0..(len - 1) as u32 {
+                            let mut v = tail(vec![SYS_MODE, idx, 1, c]);
+                            if !self.cancel {
+                                // (no cancel digit on the tape in C01)
+                            }
+                            v.push(api);
+                            tapes.push(v);
+                        }
+                    }
                 }
             }
             // every pair of cuts for the short corpus
